@@ -17,9 +17,7 @@ GEN_DEPS = ['LalrHoles']
 RULE = ('random CFGs (<=5 non-terminals, <=4 terminals, <=3 alternatives of length <=3; nullable alternatives, '
         'left/right recursion, shared LR(0) cores, rule priorities, shift/reduce and reduce/reduce conflicts, 1-2 start '
         'symbols) compiled by lark; per grammar every LR(0) state, relation, look-ahead set and table row is one '
-        'comparison; per input every fed token is one comparison (state stack, choices(), and on the first 6 inputs of a '
-        'start symbol accepts() against the model trial feeds and against really feeding every terminal to a copy); family '
-        'emptytail: a non-empty reduction followed by empty-rule reductions in one chain; non-trivial = distinct (grammar) with >= 4 states '
+        'comparison; per input every fed token is one comparison; non-trivial = distinct (grammar) with >= 4 states '
         'and >= 1 reduce entry whose look-ahead set is a proper subset of the terminals, or distinct (grammar, input) '
         'with >= 1 reduction')
 TRUSTED_BASE = ['run-time wrappers that read LALR_Analyzer internals (lr0_itemsets, directly_reads/reads/includes/'
@@ -49,9 +47,7 @@ TS = ['A', 'B', 'C', 'D']
 
 def gen_grammar(rng, profile=None):
     """returns dict(rules={nt: [alt,...]}, prio={nt: int}, starts=[...], nts, ts)"""
-    profile = profile or rng.choice(['plain', 'plain', 'nullable', 'cores', 'prio', 'conflict', 'expr', 'nullchain', 'tie3', 'emptytail'])
-    if profile == 'emptytail':
-        return gen_emptytail(rng)
+    profile = profile or rng.choice(['plain', 'plain', 'nullable', 'cores', 'prio', 'conflict', 'expr', 'nullchain', 'tie3'])
     if profile == 'nullchain':
         return gen_nullchain(rng)
     if profile == 'tie3':
@@ -138,34 +134,6 @@ def gen_nullchain(rng):
     if rng.random() < 0.3:                       # bottom-up order of definition as well
         nts = ['start'] + chain[::-1]
     return dict(rules=rules, prio={}, starts=['start'], nts=nts, ts=ts, profile='nullchain')
-
-
-def gen_emptytail(rng):
-    """a head reduced by a NON-EMPTY rule followed by 1-3 nullable non-terminals whose EMPTY alternative is reduced in the
-    same reduce chain (optional token `o: | X`, nullable tail `o: | X a o`, always empty `o:`), then possibly a closing
-    terminal: consuming the next token (or $END) needs `size == 0` reductions right after a `size > 0` one - the case the
-    `if size:` guard of feed_token exists for, and the one any re-implementation of its loop (accepts()) gets wrong first"""
-    ts = TS[:rng.randint(3, 4)]
-    k = rng.randint(1, 3)
-    opts = ['o%d' % i for i in range(k)]
-    head = rng.choice(['unit', 'leftrec', 'pair', 'rightrec'])
-    t0 = ts[0]
-    rules = {}
-    rules['a'] = {'unit': [[t0]], 'leftrec': [[t0], ['a', t0]], 'pair': [[t0, rng.choice(ts)]],
-                  'rightrec': [[t0, 'a'], [t0]]}[head]
-    close = [rng.choice(ts)] if rng.random() < 0.5 else []
-    rules['start'] = [['a'] + opts + close]
-    if rng.random() < 0.3:
-        rules['start'].append([rng.choice(ts[1:]), 'a'] + opts[:1])
-    for i, o in enumerate(opts):
-        x = ts[1 + i % (len(ts) - 1)]
-        shape = rng.choice(['opt', 'opt', 'tail', 'empty'])
-        alts = {'opt': [[], [x]], 'tail': [[], [x, 'a', o]], 'empty': [[]]}[shape]
-        if rng.random() < 0.4:
-            alts = alts[::-1]
-        rules[o] = alts
-    nts = ['start', 'a'] + opts
-    return dict(rules=rules, prio={}, starts=['start'], nts=nts, ts=ts, profile='emptytail')
 
 
 def gen_tie3(rng):
@@ -722,46 +690,9 @@ def is_cyclic(rules):
     return has_cycle(list(R), R)
 
 
-def real_accepts(ip, o, counting):
-    """(ip.accepts() as sorted terminal numbers or None, failure description or None).  The property's own reading:
-    t is in accepts() exactly when feeding a token of type t to a copy of the parser succeeds."""
-    from lark import Token
-    from lark.exceptions import UnexpectedToken
-    expect = set()
-    for t in o.tnum:
-        counting.n = 0
-        try:
-            c = ip.copy()
-        except (MemoryError, RecursionError):
-            return None, None
-        try:
-            c.feed_token(Token(t, ''))
-            expect.add(t)
-        except UnexpectedToken:
-            pass
-        except Hang:
-            return None, None      # a non-terminating trial feed (priority-resolved conflicts): no reference, nothing recorded
-        except (MemoryError, RecursionError):
-            return None, None
-        except Exception:   # noqa
-            return None, None      # malformed configuration (assert / KeyError): reported by the driver comparison
-    counting.n = 0
-    try:
-        acc = set(ip.accepts())
-    except Hang:
-        return None, 'accepts() does not return although every trial feed does'
-    except Exception as e:   # noqa
-        return None, 'accepts() raised %s' % type(e).__name__
-    fail = None
-    if acc != expect:
-        fail = 'accepts() = %s but feeding a token succeeds exactly for %s' % (sorted(acc), sorted(expect))
-    return sorted(o.tnum[t] for t in acc), fail
-
-
-def drive(o, tab, start, w, guard=True, with_accepts=True):
+def drive(o, tab, start, w, guard=True):
     """feed w (terminal numbers) then $END through parse_interactive on the real ParserState; returns
-    (steps, tree, acc0, acc_fail) with steps = [(t, code, stack_topfirst, keys, accepts-after-a-shift or None)],
-    acc0 = accepts() of the fresh parser, acc_fail = first failure of the accepts() oracle (or None)"""
+    (steps, tree) with steps = [(t, code, stack_topfirst, keys)]"""
     from copy import copy
     from lark import Token
     from lark.exceptions import UnexpectedToken
@@ -776,18 +707,12 @@ def drive(o, tab, start, w, guard=True, with_accepts=True):
     ps.parse_conf = conf
     steps = []
     tree = None
-    acc_fail = None
-    acc0 = None
-    if with_accepts:
-        acc0, acc_fail = real_accepts(ip, o, counting)
-        if acc_fail:
-            acc_fail = (acc_fail, [])
 
     def conv(v):
         if isinstance(v, tuple):
             return ('N', v[1], [conv(c) for c in v[2]])
         return ('L', o.tnum[v.type])
-    for k, t in enumerate(list(w) + [0]):
+    for t in list(w) + [0]:
         keys = None
         counting.n = 0
         try:
@@ -798,7 +723,7 @@ def drive(o, tab, start, w, guard=True, with_accepts=True):
             else:
                 code = 'shift'
         except Hang:
-            steps.append((t, CODE['hang'], [], [], None))
+            steps.append((t, CODE['hang'], [], []))
             break
         except UnexpectedToken as e:
             code = 'unexpected'
@@ -810,31 +735,23 @@ def drive(o, tab, start, w, guard=True, with_accepts=True):
         stack = [tab['num'][q] for q in reversed(ps.state_stack)]
         if keys is None:
             keys = sorted(name_sym[k] for k in ip.choices()) if code == 'shift' else []
-        acc = None
-        if code == 'shift' and with_accepts:
-            acc, fail = real_accepts(ip, o, counting)
-            if fail and acc_fail is None:
-                acc_fail = (fail, list(w[:k + 1]))
-        steps.append((t, CODE[code], stack, keys, acc))
+        steps.append((t, CODE[code], stack, keys))
         if code != 'shift':
             break
-    return steps, tree, acc0, acc_fail
+    return steps, tree
 
 
-def c_dcase(o, d, tab, start, runs, acc0=None):
+def c_dcase(o, d, tab, start, runs):
     nuser = len(d['rules']) - len(d['roots'])
     rows = L(['(%d,%s)' % (q, c_row(row)) for q, row in tab['rows']])
     items = L(['(%d,%s)' % (q, c_items(d['states'][q][1])) for q, _ in tab['rows']])
     rs = []
-    def c_acc(a):
-        return 'None' if a is None else '(Some %s)' % c_nats(a)
     for steps, tree in runs:
-        st = L(['(%d,%d,%s,%s,%s)' % (t, code, c_nats(stack), L([c_sym(k) for k in keys]), c_acc(acc))
-                for t, code, stack, keys, acc in steps])
+        st = L(['(%d,%d,%s,%s)' % (t, code, c_nats(stack), L([c_sym(k) for k in keys])) for t, code, stack, keys in steps])
         rs.append('(%s,%s)' % (st, ('(Some %s)' % c_tree(tree)) if tree is not None else 'None'))
     start_nt = o.ntnum[start]
-    return '(mkDCase %s %d %s %d %d %d %s %s %s)' % (c_rules(d), nuser, rows, tab['start'][start], tab['end'][start],
-                                                     start_nt, items, L(rs), c_acc(acc0))
+    return '(mkDCase %s %d %s %d %d %d %s %s)' % (c_rules(d), nuser, rows, tab['start'][start], tab['end'][start],
+                                                  start_nt, items, L(rs))
 
 
 # ------------------------------------------------------------------------------------------------
@@ -977,12 +894,6 @@ FIXED = [
     ('start: r0 B | r1 B | r2 B\nr0.3: A\nr1.2: A\nr2.1: A\n' + T_('A', 'B'), ['start'], ['A', 'B']),
     # two start symbols sharing states
     ('start: a A | B\na: B a | C\n' + T_('A', 'B', 'C'), ['start', 'a'], ['A', 'B', 'C']),
-    # an EMPTY rule reduced right after a non-empty one in the same reduce chain (accepts() after "a" is {B, C}; after
-    # "a ... a" it is {A, X, Y, $END})
-    ('start: a b C\na: A\nb: | B\n' + T_('A', 'B', 'C'), ['start'], ['A', 'B', 'C']),
-    ('start: item ox oy\nitem: A | item A\nox: | B\noy: | C\n' + T_('A', 'B', 'C'), ['start'], ['A', 'B', 'C']),
-    ('start: item rest\nitem: A\nrest: | B item rest\n' + T_('A', 'B'), ['start'], ['A', 'B']),
-    ('start: stmt\nstmt: A osemi | stmt A osemi\nosemi: | B\n' + T_('A', 'B'), ['start'], ['A', 'B']),
 ]
 
 
@@ -1078,22 +989,12 @@ def correspond(ctx):
             ws = gen_inputs(rng, user_rules, o.ntnum[start], terms)
             runs = []
             hangs = 0
-            acc0 = None
-            acc_reported = False
-            for wi, w in enumerate(ws):
+            for w in ws:
                 if hangs >= 2:
                     break
-                # accepts() is observed (model comparison + its own oracle) on the first inputs of every start symbol
-                steps, tree, acc0_, acc_fail = drive(o, tab, start, w, guard=cyclic, with_accepts=(not cyclic and complete_ok and wi < 6))
-                if wi == 0:
-                    acc0 = acc0_
+                steps, tree = drive(o, tab, start, w, guard=cyclic)
                 hangs += steps[-1][1] == CODE['hang']
                 runs.append((steps, tree))
-                if acc_fail and not acc_reported:
-                    acc_reported = True
-                    ctx.violation('oracle:accepts', dict(grammar=text, starts=g['starts'], start=start, kind='accepts',
-                                                         input=names(o, acc_fail[1])), True,
-                                  'after %s: %s' % (names(o, acc_fail[1]), acc_fail[0]))
                 nred = 0 if tree is None else count_nodes(tree)
                 acc = steps[-1][1] == CODE['accept']
                 if steps[-1][1] == CODE['hang']:
@@ -1106,7 +1007,7 @@ def correspond(ctx):
                     ctx.violation('oracle:membership', dict(grammar=text, starts=g['starts'], start=start, kind='membership',
                                                             input=names(o, w), conflict_free=complete_ok,
                                                             lalr_outcome=steps[-1][1]), True, msg)
-            dcases.append(c_dcase(o, d, tab, start, runs, acc0 if runs else None))
+            dcases.append(c_dcase(o, d, tab, start, runs))
             dmeta.append(dict(grammar=text, starts=g['starts'], start=start, inputs=[names(o, [s[0] for s in st[:-1]]) for st, _ in runs][:5]))
             # text level, both lexers (terminals are distinct single characters)
             if gi % 6 == 0 and not cyclic:
@@ -1381,12 +1282,9 @@ def replay(ctx, case):
         return spec_collision(d) != d['error']
     if kind in ('conflict', 'lookahead', 'table'):
         return any(k == kind for k, _ in grammar_oracles(o, d, tab))
-    if kind == 'accepts' and tab is not None:
-        wnum = [o.tnum[t] for t in w['input']]
-        return drive(o, tab, w['start'], wnum)[3] is not None
     if kind == 'membership' and tab is not None:
         wnum = [o.tnum[t] for t in w['input']]
-        steps, tree, _, _ = drive(o, tab, w['start'], wnum, with_accepts=False)
+        steps, tree = drive(o, tab, w['start'], wnum)
         sr, rr = table_conflicts(d)
         return membership_oracle(o, d, w['start'], steps, wnum, sr == 0 and rr == 0) is not None
     return False
